@@ -49,7 +49,7 @@ FORBIDDEN = re.compile(
     r"\b(Admitted|admit|Axiom|Axioms|Parameter|Parameters|Conjecture|Conjectures|"
     r"Hypothesis|Hypotheses|Variable|Variables|Abort)\b|Unset\s+Guard|bypass_check|"
     r"type-in-type|impredicative-set|Admit\s+Obligations|Unset\s+Universe|"
-    r"Unset\s+Positivity"
+    r"Unset\s+Positivity|\bgive_up\b|Declare\s+Module|Module\s+Type\b"
 )
 
 # ------------------------------------------------------------------------------------
